@@ -58,6 +58,14 @@ func (p QueryProof) Verify(key []byte, expectedRootHash hashing.Digest) (valid b
 		return false
 	}
 
+	// a malformed proof (missing or foreign entries, a key of the wrong
+	// length) is an invalid proof, not a reason to panic
+	defer func() {
+		if r := recover(); r != nil {
+			valid = false
+		}
+	}()
+
 	// build a stack of operations and then interpret it to recompute the root hash
 	ops := pruneToVerify(key, p.Value, p.hasher.Len()-uint16(len(p.AuditPath)))
 	ctx := &pruningContext{
@@ -66,7 +74,7 @@ func (p QueryProof) Verify(key []byte, expectedRootHash hashing.Digest) (valid b
 	}
 	recomputed, err := ops.Pop().Interpret(ops, ctx)
 	if err != nil {
-		panic(err)
+		return false
 	}
 
 	return bytes.Equal(key, p.Key) && bytes.Equal(recomputed, expectedRootHash)
